@@ -1,11 +1,13 @@
 import L4.Drv.Route
 import L4.Drv.Conn
+import L4.Drv.Match
 open L4 L4.Drv
 
 def dispatch (line : String) : String :=
   match line.splitOn " " with
   | "route" :: rest => (doRoute.run rest).1
   | "conn" :: rest => (doConn.run rest).1
+  | "match" :: rest => (doMatch.run rest).1
   | _ => "bad-op"
 
 partial def loop (h : IO.FS.Stream) (out : IO.FS.Stream) : IO Unit := do
